@@ -309,7 +309,7 @@ static int vf_visit(void * e, void * p)
     vf_visit_log[vf_visit_n] = idx;
     vf_visit_n++;
     /* every visit from the stop position on would return a different non-zero value */
-    return vf_visit_n - 1 >= vf_visit_stop_at ? 7 + (vf_visit_n - 1) : 0;
+    return vf_visit_n - 1 >= vf_visit_stop_at ? VF_STOPVAL(vf_visit_n - 1) : 0;
 }
 static int vf_clr_n;
 static void vf_clr(void * e, void * p)
@@ -489,7 +489,7 @@ void h_b_visit(void)
             vf_build(&a, ra, la, 0);
             vf_visit_n = 0; vf_visit_stop_at = stop;
             res = cstl_slist_foreach(&a, vf_visit, NULL);
-            VF_ASSERT(res == (stop < la ? 7 + stop : 0), "foreach: returns the first non-zero visit result (0 if none)");
+            VF_ASSERT(res == (stop < la ? VF_STOPVAL(stop) : 0), "foreach: returns the first non-zero visit result (0 if none)");
             VF_ASSERT(vf_visit_n == expect_n, "foreach: stops at the first non-zero result, else visits every element once");
             for (k = 0; k < expect_n; k++) VF_ASSERT(vf_visit_log[k] == ra[k], "foreach: visits in sequence order");
             vf_check_list(&a, ra, la, "foreach leaves the list unchanged");
